@@ -385,3 +385,73 @@ Definition of_regex_with (v : variant) (pool : rpool) (r : regex) : outcome unit
 
 (** [Regex::to_dot] as pinned *)
 Definition of_regex (pool : rpool) (r : regex) : outcome unit string := of_regex_with pinned pool r.
+
+(** ** The known-finding classes of C16 (decidable; extracted: they are the check's classifier)
+
+    [known_labels]: a transition whose display text contains a backslash (a backslash in a literal
+    or a command, or a description that [{:?}] has to escape: double quote, backslash, control
+    character).  The pinned code writes such a text with only its double quotes escaped, so the
+    label renders wrongly or -- backslash directly before a double quote -- the quoted string ends
+    early and the file is not DOT at all.
+    [known_subacc]: numbering base 1 (fish, zsh) and a transition on a within-word automaton that
+    has an accepting state: the dashed edge out of the cluster names the state without the base.
+    [known_phantom]: state 0 is not a state of the automaton ([get_all_states] inserts it anyway).
+    Cannot happen for the automata [minimize] returns (renumbering makes the start state 0).
+    [known_rx]: a literal, description or nonterminal name with a double quote or a backslash:
+    the --regex printer writes them verbatim inside a quoted label. *)
+Definition display_has_backslash (i : inp) : bool :=
+  match diagnostic_display_input i with
+  | Ok t => contains_char "\"%char t
+  | _ => false
+  end.
+
+Definition labels_need_escape (d : dfa) : bool :=
+  existsb (fun t : N * N * N =>
+             match nthN (d_inputs d) (snd (fst t)) with
+             | Some (ISub _ _) | None => false
+             | Some x => display_has_backslash x
+             end) (iter_transitions d).
+
+Definition used_subs (c : cdfa) : list dfa :=
+  flat_map (fun t : N * N * N =>
+              match nthN (d_inputs (c_main c)) (snd (fst t)) with
+              | Some (ISub k _) => match nthN (c_subs c) k with Some sd => [sd] | None => [] end
+              | _ => []
+              end) (iter_transitions (c_main c)).
+
+Definition known_labels (c : cdfa) : bool :=
+  labels_need_escape (c_main c) || existsb labels_need_escape (used_subs c).
+
+Definition known_subacc (base : N) (c : cdfa) : bool :=
+  negb (base =? 0)
+  && existsb (fun sd => match d_accepting sd with [] => false | _ => true end) (used_subs c).
+
+Definition phantom_zero (d : dfa) : bool :=
+  negb (memN 0 (d_start d :: trans_states d ++ d_accepting d)).
+
+Definition known_phantom (c : cdfa) : bool :=
+  phantom_zero (c_main c) || existsb phantom_zero (used_subs c).
+
+Definition known_C16 (base : N) (c : cdfa) : bool :=
+  known_labels c || known_subacc base c || known_phantom c.
+
+Definition needs_dot_escape (s : string) : bool :=
+  contains_char """"%char s || contains_char "\"%char s.
+
+Definition rinput_raw_unsafe (i : rinput) : bool :=
+  match i with
+  | RLit t None => needs_dot_escape t
+  | RLit t (Some d) => needs_dot_escape t || needs_dot_escape d
+  | RNonterm n => needs_dot_escape n
+  | RCmd _ | RSub _ => false
+  end.
+
+Definition known_rx (pool : rpool) (r : regex) : bool :=
+  existsb rinput_raw_unsafe (r_inputs r)
+  || existsb (fun i => match i with
+                       | RSub rid => match assocN rid pool with
+                                     | Some sr => existsb rinput_raw_unsafe (r_inputs sr)
+                                     | None => false
+                                     end
+                       | _ => false
+                       end) (r_inputs r).
